@@ -17,7 +17,7 @@ class C06(Prop):
             "the strict pcapng reader, frame parser and TCP reassembler; non-trivial = the output contains at least one "
             "packet; distinct = distinct scenario digests")
     reach = ["mode_healthy", "mode_faulty", "mode_foreign", "mode_empty", "mode_nk", "opt_m", "opt_c", "opt_a", "opt_g",
-             "opt_p", "output_has_tcp", "output_has_udp", "zero_length_record", "record_smaller_than_k"]
+             "opt_p", "opt_l", "output_has_tcp", "output_has_udp", "zero_length_record", "record_smaller_than_k"]
 
     def plan(self, tier):
         p = super().plan(tier)
@@ -78,6 +78,9 @@ class C06(Prop):
         spec["prop"] = "C06"
         spec["mode"] = mode
         spec["cli"] = random_cli(R.fork("cli"), [c for c in spec["conns"] if c["proto"] in ("tls", "quic")])
+        if R.chance(25):
+            spec["container"] = R.choice([{"fmt": "pcap"}, {"fmt": "pcap", "ns": True, "be": True}, {"be": True},
+                                          {"tsresol": ["dec", 9]}, {"blocks_seed": R.bits(30), "epb_opts": True}])
         if mode == "faulty":
             ex = world.expand(spec)
             n = len(ex["taplog"])
@@ -110,12 +113,14 @@ class C06(Prop):
         out = Outcome()
         ex = world.expand(spec)
         out.sim_time_ns = ex["stats"]["sim_time_ns"]
-        res = run_export(lane, spec, ex, out)
+        res = run_export(lane, spec, ex, out, infile_name="in.pcap" if spec.get("container", {}).get("fmt") == "pcap" else "in.pcapng")
         out.count("reach:mode_" + spec.get("mode", "?"))
         cli = spec.get("cli", {})
         for o in ("m", "c", "a", "g", "p"):
             if cli.get(o) or (o == "m" and "m" in cli and cli["m"] is not None):
                 out.count("reach:opt_" + o)
+        if spec.get("container", {}).get("fmt") == "pcap":
+            out.count("reach:opt_l")
         for k, v in ex["stats"].get("fault_fired", {}).items():
             out.count("fault:tap_" + k, v)
         out.sample = {"seed": spec.get("seed"), "mode": spec.get("mode"), "cli": cli,
